@@ -6,7 +6,8 @@
    and non-vacuity examples. *)
 From QV.lib Require Import Prelude FinSum DFT DFT2 DFT_Inst.
 From QV.model Require Import C02_Model.
-From QV.proof Require Import C02_Proofs_Index C02_Proofs_Forward C02_Proofs_Inst C02_Proofs_Ext C02_Proofs_ExtInst C02_Proofs_Geom.
+From QV.proof Require Import C02_Proofs_Index C02_Proofs_Forward C02_Proofs_Inst C02_Proofs_Ext C02_Proofs_ExtInst C02_Proofs_Geom C02_Proofs_ModeOrder.
+From Coq Require Import Permutation.
 From Coq Require Import QArith Qcanon.
 Local Close Scope Q_scope.
 Local Open Scope Z_scope.
@@ -522,3 +523,31 @@ Example C02_nonvacuous_targets :
   d_targets (drun [Preprocess false; SetTargets L2_intensity false; Preprocess false] st0) = Some (CenteredAmplitudes, 2%nat) /\
   d_targets (drun [Preprocess false; Preprocess false; SetTargets L1_amplitude false] st0) = Some (CenteredAmplitudes, 2%nat).
 Proof. vm_compute. split; reflexivity. Qed.
+
+(* ------------------------------------------------------------------------------------------
+   the ORDER of the incoherent probe modes is not observable (round 6): the pipeline as the code runs
+   it predicts the same pattern for every permutation of the mode list — the order in which a caller
+   hands the modes to the probe setter, or the re-ordering by intensity that the orthogonalisation
+   constraint applies, cannot change a loss.  Every ROI size, any number of slices and modes. *)
+Theorem C02_mode_order_irrelevant :
+  forall (R : Type) (rO rI : R) (radd rmul rsub : R -> R -> R) (ropp : R -> R),
+    ring_theory rO rI radd rmul rsub ropp eq ->
+    forall (conj : R -> R) (N1 : nat) (w1 : Z -> R) (Ninv1 : R) (N2 : nat) (w2 : Z -> R) (Ninv2 : R)
+           (sN : R) (objf : list (Z -> R)) (H W r0 c0 : Z) (rr rc : nat -> R)
+           (props probes probes' : list (nat -> nat -> R)) (k1 k2 : nat),
+      Permutation probes probes' ->
+      forward_code rO radd rmul conj N1 w1 Ninv1 N2 w2 Ninv2 sN objf H W r0 c0 rr rc props probes k1 k2
+      = forward_code rO radd rmul conj N1 w1 Ninv1 N2 w2 Ninv2 sN objf H W r0 c0 rr rc props probes' k1 k2.
+Proof. exact forward_code_mode_order. Qed.
+Print Assumptions C02_mode_order_irrelevant.
+
+Example C02_nonvacuous_mode_order : forall (P Q S : nat -> nat -> C) k1 k2,
+  forward_code c0 cadd cmul cconj 4 w4 quarter 4 w4 quarter quarter
+               (map (fun o => flatten o 5) [iobj 1 2; iobj 3 1]) 6 5 4 3 (iramp 1) (iramp 3) [ikern 1] [P; Q; S] k1 k2
+  = forward_code c0 cadd cmul cconj 4 w4 quarter 4 w4 quarter quarter
+               (map (fun o => flatten o 5) [iobj 1 2; iobj 3 1]) 6 5 4 3 (iramp 1) (iramp 3) [ikern 1] [S; P; Q] k1 k2.
+Proof.
+  intros P Q S k1 k2. apply (C02_mode_order_irrelevant C c0 c1 cadd cmul csub copp C_ring).
+  apply Permutation_sym. change [S; P; Q] with (S :: [P; Q]). change [P; Q; S] with ([P; Q] ++ [S]).
+  apply Permutation_cons_append.
+Qed.
